@@ -1,13 +1,24 @@
 """Shared by C08 and C09 (pubsub.Broker): BrokerImpl model checking, BrokerStep schedule generation, execution on the real
 broker (vh-broker), BrokerTrace validation.  c08.py judges the delivery obligations, c09.py the progress / shutdown
 obligations; both call into this module, each writes its own evidence."""
-import collections, concurrent.futures as cf, copy, json, random
+import collections, concurrent.futures as cf, contextlib, copy, json, random, time
 
 from vlib import tlc, harness, trace, replay
 
 COMP = "broker"
 SCHED_OF = {}    # id(history) -> schedule that produced it
 RECORD_OF = {}   # id(history) -> recorder arguments that produced it
+
+@contextlib.contextmanager
+def phase(rep, name):
+    """wall time per phase, for the evidence only"""
+    t0 = time.time()
+    try:
+        yield
+    finally:
+        rep.cov.setdefault("phase_wall_s", {})
+        rep.cov["phase_wall_s"][name] = round(rep.cov["phase_wall_s"].get(name, 0) + time.time() - t0, 1)
+
 
 # ------------------------------------------------------------------------------------------- BrokerImpl configurations
 BASE = dict(Pubs='{"p1"}', K=2, Subs='{"s1", "s2"}', W=1, Parallel="FALSE", Backend='"queue"', Cap=0, Buf=0,
@@ -139,6 +150,7 @@ def gen_schedules(rep, quick, seed, want):
     scen = replay.dedupe(r.tagged.get("BEH", []))
     rs = tlc.run_tlc(COMP, "BrokerStep", "Step_sim.cfg", workers=1, simulate=dict(num=100 if quick else 1500), depth=20,
                      seed=seed, timeout=900)
+    rep.add_tlc("BrokerStep/Step_sim.cfg", rs, "random deep driver schedules (-simulate)")
     if not rs.ok:
         rep.infra_error("BrokerStep simulation failed: " + rs.out[-1200:])
         return [], []
@@ -287,10 +299,12 @@ def judge_delivery(rep, hists, label, shards=8):
 
 def mutate_selftests(rep, hists, tests, tries=6):
     """Binding self-tests: corrupt one recorded fact and require BrokerTrace to reject it with the right predicate."""
-    for name, cfg, fn, expect in tests:
+    cands = sorted(hists, key=len, reverse=True)
+
+    def one(t):
+        name, cfg, fn, expect = t
         n, last = 0, "no recorded history to which the corruption applies"
-        ok = False
-        for h in sorted(hists, key=len, reverse=True):
+        for h in cands:
             bad = fn(copy.deepcopy(h))
             if bad is None:
                 continue
@@ -299,11 +313,13 @@ def mutate_selftests(rep, hists, tests, tries=6):
             why = info.get("why") if isinstance(info, dict) else str(info)[:200]
             last = "rejected with %s (expected %s)" % (why, expect) if acc is False else "not rejected (%s)" % acc
             if acc is False and why == expect:
-                ok = True
-                break
+                return name, True, last
             if n >= tries:
                 break
-        rep.self_test(name, ok, last)
+        return name, False, last
+    with cf.ThreadPoolExecutor(max_workers=len(tests)) as ex:
+        for name, ok, detail in ex.map(one, tests):
+            rep.self_test(name, ok, detail)
 
 
 def lossless(h):
